@@ -250,7 +250,7 @@ func (n *Node) PrintNodeTree(stmt *Statement, printFlat bool, printBinary bool, 
 					}
 				}
 				// Write actual compound entry including left and right shared parts, including escaping of selected symbols
-				out.WriteString(shared.EscapeSymbolsForExport(outEntry))
+				out.WriteString(escapeForJSON(outEntry))
 				out.WriteString("\"")
 
 				// Ensure that entry is closed
@@ -535,7 +535,7 @@ func (n *Node) appendPropertyNodes(stringToPrepend string, stmt *Statement, prin
 								}
 
 								// Append each entry individually as string
-								stringToAppendTo.WriteString(shared.EscapeSymbolsForExport(v.Entry.(string)))
+								stringToAppendTo.WriteString(escapeForJSON(v.Entry.(string)))
 								entryAdded = true
 							}
 						}
@@ -544,7 +544,7 @@ func (n *Node) appendPropertyNodes(stringToPrepend string, stmt *Statement, prin
 						stringToAppendTo.WriteString(privateNode.Entry.(*Statement).StringFlatStatement(true))
 					} else {
 						// Primitive properties
-						stringToAppendTo.WriteString(shared.EscapeSymbolsForExport(privateNode.Entry.(string)))
+						stringToAppendTo.WriteString(escapeForJSON(privateNode.Entry.(string)))
 					}
 				} else {
 					// If no flat printing, append complete nested tree structure (property tree)
@@ -593,7 +593,7 @@ func (n *Node) appendAnnotations(stringToPrepend string, prependSeparator bool, 
 		stringToAppendTo.WriteString(TREE_PRINTER_KEY_ANNOTATIONS)
 		stringToAppendTo.WriteString(TREE_PRINTER_EQUALS)
 		stringToAppendTo.WriteString("\"")
-		stringToAppendTo.WriteString(shared.EscapeSymbolsForExport(n.GetAnnotations().(string)))
+		stringToAppendTo.WriteString(escapeForJSON(n.GetAnnotations().(string)))
 		stringToAppendTo.WriteString("\"")
 		if appendSeparator {
 			stringToAppendTo.WriteString(", ")
@@ -622,7 +622,7 @@ func (n *Node) appendDegreeOfVariability(stringToPrepend string, prependSeparato
 		stringToAppendTo.WriteString(TREE_PRINTER_KEY_COMPLEXITY)
 		stringToAppendTo.WriteString(TREE_PRINTER_EQUALS)
 		stringToAppendTo.WriteString("\"")
-		stringToAppendTo.WriteString(shared.EscapeSymbolsForExport(strconv.Itoa(retVal)))
+		stringToAppendTo.WriteString(escapeForJSON(strconv.Itoa(retVal)))
 		stringToAppendTo.WriteString("\"")
 		if appendSeparator {
 			stringToAppendTo.WriteString(", ")
@@ -630,4 +630,28 @@ func (n *Node) appendDegreeOfVariability(stringToPrepend string, prependSeparato
 	}
 	// Return potentially extended string
 	return stringToAppendTo.String()
+}
+
+/*
+Escapes content for embedding into JSON string literals: substitutes quotation marks (as for all exports),
+and escapes backslashes and control characters, which must not occur unescaped in JSON strings.
+*/
+func escapeForJSON(rawValue string) string {
+	const hexDigits = "0123456789abcdef"
+	value := shared.EscapeSymbolsForExport(rawValue)
+	b := strings.Builder{}
+	for i := 0; i < len(value); i++ {
+		c := value[i]
+		switch {
+		case c == '\\':
+			b.WriteString("\\\\")
+		case c < 0x20:
+			b.WriteString("\\u00")
+			b.WriteByte(hexDigits[c>>4])
+			b.WriteByte(hexDigits[c&0xf])
+		default:
+			b.WriteByte(c)
+		}
+	}
+	return b.String()
 }
